@@ -33,6 +33,10 @@ add("C12", "explicit-state BFS over operation histories on real modules (state =
     "Four explorations on the real code: (1) BFS over all sequences (depth 2 quick / 3 thorough) of 9 operations on one shared module, invariants evaluated in every state (module hash unchanged, output equals output on a fresh module, returned bytes not aliased); (2) all ordered pairs of a module cover set on one reused spirv.Backend; (3) every range-over-map site in naga (82, instrumented by a build overlay generated from the current tree) iterating native/ascending/descending/rotated with byte-identical output required; (4) all interleavings of 2-3 concurrent compilations at function-entry yield points up to 1 (quick) / 2 (thorough) preemptions with a shared-state fingerprint invariant at every scheduling point, recorded schedules replayed twice; plus the same harness bodies free-running under the race detector.",
     "spirv.Backend is single-owner and never shared. Interleavings are at function-entry granularity under sequential consistency; yield points per thread are capped (reported per scenario). The instrumentation overlay is regenerated from /repo's working tree on every run; /repo is not modified.", "DESIGN.md §3 C12")
 
+add("C13", "explicit-state BFS over pass sequences on real modules (state = canonical module hash, successors on deep clones), invariants evaluated in every reached state",
+    "BFS (depth 2 quick / 3 thorough) over 12 transitions (six compaction/reordering passes, inlining with inline-all and inline-none policies, sroa, mem2reg, dce, and the DXIL pipeline prepareModule+runOptPasses) from the lowered modules of every F2 control-flow tree within the node budget (3 positions) and F1 representatives. Each transition is judged against its own input state: no new IR-rule finding class, IR-interpreter result unchanged on all case inputs, and the pass applied twice equals once. 'Start from non-initial states' is inherent: every pass is applied to the outputs of every other pass.",
+    "Trusted base: internal/irx (interpreter incl. the documented Alias/Phi semantics, strict validator, canonical hash). Exported ir.* passes are not applied to states containing DXIL-only SSA kinds; on such states only structural rules are judged. Hook: dxil/verif_export.go (build tag verif).", "DESIGN.md §3 C13")
+
 NA = {
 }
 for i in range(1, 20):
@@ -45,7 +49,7 @@ m = {
  "setup_cmd": "cd /verif && export GOFLAGS=-mod=mod GOPROXY=off && mkdir -p bin && go build -tags verif -o bin/vcheck ./cmd/vcheck",
  "hooks": {"guard": "verif", "enable": "go build -tags verif (harness module replaces github.com/gogpu/naga => /repo)",
            "baseline_off_cmd": "cd /repo && GOFLAGS=-mod=mod GOPROXY=off go test -json -vet=off -count=1 -timeout 25m ./...",
-           "source_commits": [], "add_only": True},
+           "source_commits": ["9dc1ecc"], "add_only": True},
  "engines": [
   {"name": "vcheck", "path": "cmd/vcheck", "serves_properties": sorted(checks), "kind_free_text": "hand-written bounded-exhaustive explorers running on the real naga code (program/input/configuration/history enumeration), reference WGSL evaluator and independent target interpreters"}
  ],
